@@ -234,11 +234,14 @@ impl TcpNameserver {
     }
 
     async fn send_tcp_query(&mut self, msg: TcpNameserverMessage) -> Result<(), Error> {
-        assert!(
-            self.qid2reply
-                .insert(msg.out_query.qid, msg.out_reply)
-                .is_none()
-        ); // TODO: Collisions!
+        /* Replies are matched to queries by id alone.  If another outstanding query on this
+         * connection already uses this id, pick an unused one instead.
+         */
+        let mut msg = msg;
+        while self.qid2reply.contains_key(&msg.out_query.qid) {
+            msg.out_query.qid = msg.out_query.qid.wrapping_add(1);
+        }
+        self.qid2reply.insert(msg.out_query.qid, msg.out_reply);
         if let Some(ref mut tcp_sock) = self.tcp {
             use tokio::io::AsyncWriteExt as _;
             let bytes = msg.out_query.serialise();
